@@ -58,6 +58,8 @@ def point_malformations(X, fitted_d=None, with_pre=False):
     Y = X.astype(object)
     Y[1, 0] = None
     m['object_none'] = Y
+    m['numeric_strings'] = X.astype(str)             # str dtype whose entries all LOOK like numbers
+    m['numeric_bytes'] = X.astype('S')
     L = X.tolist()
     L[0][0] = 'a'
     m['str_entry'] = L
@@ -99,6 +101,8 @@ def tuple_malformations(T, fitted_d=None, with_pre=False):
     L = T.tolist()
     L[0][0][0] = 'a'
     m['str_entry'] = L
+    m['numeric_strings'] = T.astype(str)
+    m['numeric_bytes'] = T.astype('S')
     L = T.tolist()
     L[-1][-1] = L[-1][-1][:-1]
     m['ragged'] = L
